@@ -8,3 +8,12 @@ class SubM2M(models.ManyToManyField):
     """A plain subclass of ManyToManyField (as sortedm2m-style packages
     ship): its automatically created table is owned by the model exactly like
     that of a ManyToManyField."""
+
+
+class TagField(models.CharField):
+    """Custom (non django.db.models) field classes: a hinted evolution has to
+    import them by name."""
+
+
+class CodeField(models.CharField):
+    pass
